@@ -84,8 +84,18 @@ func contentType(t uint8) string {
 	return "unknown"
 }
 
+// maxRecordLength returns the largest payload a record of the given content
+// type may carry: 2^14 bytes for plaintext records, 2^14+256 for protected
+// (application_data) records. RFC 8446 sections 5.1 and 5.2.
+func maxRecordLength(contentType uint8) uint32 {
+	if contentType == 23 {
+		return 16384 + 256
+	}
+	return 16384
+}
+
 func readRecord(conn net.Conn) ([]byte, error) {
-	record := make([]byte, 16389)
+	record := make([]byte, 5+16384+256)
 	n, err := io.ReadFull(conn, record[:5])
 	if err == io.ErrUnexpectedEOF {
 		err = io.EOF
@@ -94,8 +104,8 @@ func readRecord(conn net.Conn) ([]byte, error) {
 		return record[:n], err
 	}
 	length := uint32(record[3])<<8 | uint32(record[4])
-	if length > 16384 {
-		return record[:n], fmt.Errorf("%w: record length %d > 16384", ErrDecodeError, length)
+	if max := maxRecordLength(record[0]); length > max {
+		return record[:n], fmt.Errorf("%w: record length %d > %d", ErrDecodeError, length, max)
 	}
 	nn, err := io.ReadFull(conn, record[n:n+int(length)])
 	if err == io.ErrUnexpectedEOF {
